@@ -1658,6 +1658,54 @@ def _order_verdict(errs, floor, need):
     return order, (errs[-1] < errs[0] and order >= need)
 
 
+def oracle_cdf_entry(ctx, rng):
+    """`SolveCDF(m, b, k, h, ...)` is documented as `SolveUnc(..., cd_as_force=True)`: the class must hand every
+    constructor option on (rb, rf, order, pre_eig).  Physical (coupled, symmetric) m and k with pre_eig=True is the
+    case in which a dropped option changes the equations that are solved."""
+    n = int(rng.integers(3, 6))
+    X = rng.standard_normal((n, n))
+    M = X @ X.T / n + np.eye(n)
+    Q = np.linalg.qr(rng.standard_normal((n, n)))[0]
+    h = 0.01
+    w = rng.uniform(0.4, 3.0, n) / h / 8
+    K = Q @ np.diag(w * w) @ Q.T
+    K = (K + K.T) / 2
+    Z = rng.standard_normal((n, n))
+    B = Z @ Z.T / n * 0.05 * float(w.mean())
+    nt = int(rng.integers(4, 12))
+    F = rng.standard_normal((n, nt))
+    for order in (0, 1):
+        for kw in (dict(pre_eig=True), dict(pre_eig=True, rf=[n - 1]), dict(pre_eig=False)):
+            spec = {"solver": "cdf-entry", "m": M.tolist(), "b": B.tolist(), "k": K.tolist(), "h": h, "order": order,
+                    "opts": {k_: (v if not isinstance(v, list) else list(v)) for k_, v in kw.items()}, "F": F.tolist()}
+            ctx.count("oracle:cdf-entry:" + "+".join(sorted(k_ for k_, v in kw.items() if v)))
+            if _cdf_entry_check(ctx, spec):
+                return
+
+
+def _cdf_entry_check(ctx, spec):
+    from pyyeti import ode
+    M, B, K, F = (np.array(spec[x], float) for x in ("m", "b", "k", "F"))
+    h, order, kw = spec["h"], spec["order"], dict(spec["opts"])
+    try:
+        with warnings.catch_warnings():
+            warnings.simplefilter("ignore")
+            a = ode.SolveCDF(M, B, K, h, order=order, **kw).tsolve(F)
+            b_ = ode.SolveUnc(M, B, K, h, order=order, cd_as_force=True, **kw).tsolve(F)
+    except Exception as e:  # noqa: BLE001
+        ctx.fail("cdf-entry-raises", "SolveCDF / SolveUnc(cd_as_force=True) refuses a valid system", spec, repr(e)[:150], "a history")
+        return True
+    for nm in "dva":
+        x, y = getattr(a, nm), getattr(b_, nm)
+        sc = max(float(np.abs(y).max()), 1e-300)
+        if x.shape != y.shape or not float(np.abs(x - y).max()) <= 1e-12 * sc:
+            ctx.fail("cdf-entry-differs-from-solveunc-cd-as-force",
+                     "SolveCDF(%s) is not SolveUnc(cd_as_force=True, %s): %s differs" % (kw, kw, nm), spec,
+                     float(np.abs(x - y).max() / sc), "<= 1e-12")
+            return True
+    return False
+
+
 def oracle_convergence(ctx, rng, balanced, solver):
     """Step-halving study on a small damped system with a smooth force."""
     from pyyeti import ode
@@ -2147,7 +2195,7 @@ def _run_spec(ctx, spec):
     s = spec.get("solver")
     extra = {"newmark-proved-bounds": oracle_proved_bounds, "newmark-va-orders": oracle_va_orders,
              "newmark-initial-accel": oracle_initial_accel_defect, "newmark-modal": oracle_modal,
-             "cdf-two-dof": oracle_cdf_two_dof, "newmark-nonlin-rf": oracle_nonlin_rf}
+             "cdf-two-dof": oracle_cdf_two_dof, "newmark-nonlin-rf": oracle_nonlin_rf, "cdf-entry": _cdf_entry_check}
     if s in extra:
         extra[s](ctx, spec)
         return
@@ -2233,6 +2281,8 @@ def search(ctx, hints):
         ctx.count("oracle:cdf")
         if len(ctx.failures) > 30:
             return
+    for _ in range(ctx.pick(20, 120)):
+        oracle_cdf_entry(ctx, rng)
     for i in range(ctx.pick(12, 60)):
         oracle_convergence(ctx, rng, balanced=bool(i % 2), solver="newmark")
         ctx.count("oracle:newmark-step-halving")
